@@ -251,55 +251,91 @@ def gen_ops_corr(rng, n):
 
 
 # ------------------------------------------------------------------ oracle: the walks and the enumerators
-def run_lang_oracle(inp):
-    A, ref = make(inp)
+def check_lang(A, ref, wmax, nmax, bad, tag):
+    """every query family against the reference language, from the default start and from explicit start vertices"""
     starts = list(A.start_vertices)
     ls = labels_of(ref) + ["z"]
-    before = U.views(A)
-    bad = []
     vs = sorted(ref.V, key=U.key)
+    n0 = len(bad)
     for sv in [None] + vs[:3]:
         if sv is None and (not starts or starts[0] not in ref.V):
             continue
         s0 = starts[0] if sv is None else sv
-        for w in words_upto(ls, inp["wmax"]):
+        for w in words_upto(ls, wmax):
             end = ref.follow(s0, w)
             pw = pyword(w)
             acc = A.accepts(pw, start_vertex=sv)
-            if acc != (end is not None):
-                bad.append(["accepts", sv, pw, acc])
+            # start_vertex=None: "any start state is allowed"
+            want_acc = (end is not None) if sv is not None else any(x in ref.V and ref.follow(x, w) is not None for x in starts)
+            if acc != want_acc:
+                bad.append([tag, "accepts", sv, pw, acc])
             try:
                 got = A.follow_word(pw, start_vertex=sv)
             except FSAException:
                 got = None
             if got != end or (got is None) != (end is None):
-                bad.append(["follow_word", sv, pw, repr(got), repr(end)])
+                bad.append([tag, "follow_word", sv, pw, repr(got), repr(end)])
             if sv is None:
                 best = max((w[:j] for j in range(len(w) + 1) if ref.follow(s0, w[:j]) is not None), key=len)
                 if list(A.initial_accepted_subword(pw)) != list(best):
-                    bad.append(["initial_accepted_subword", pw, A.initial_accepted_subword(pw)])
+                    bad.append([tag, "initial_accepted_subword", pw, A.initial_accepted_subword(pw)])
                 rej = A.initial_rejected_subword(pw)
                 rej = None if rej is None else list(rej)
                 want = None if end is not None else list(w[:len(best) + 1])     # None exactly for accepted words
                 if rej != want:
-                    bad.append(["initial_rejected_subword", pw, rej])
+                    bad.append([tag, "initial_rejected_subword", pw, rej])
         tot = []
-        for n in range(inp["nmax"] + 1):
+        for n in range(nmax + 1):
             want = collections.Counter(("".join(w), repr(e)) for w, e in ref.lang(s0, n))
             got = collections.Counter((w, repr(e)) for w, e in A.enumerate_fixed_length_paths(n, start_vertex=sv, with_states=True))
             if got != want:
-                bad.append(["enumerate_fixed_length_paths", sv, n, sorted(got.elements())[:6], sorted(want.elements())[:6]])
+                bad.append([tag, "enumerate_fixed_length_paths", sv, n, sorted(got.elements())[:6], sorted(want.elements())[:6]])
             plain = collections.Counter(A.enumerate_fixed_length_paths(n, start_vertex=sv))
             if plain != collections.Counter(w for w, _ in want.elements()) or any(c > 1 for c in plain.values()):
-                bad.append(["enumerate_fixed_length_paths(with_states=False)", sv, n])
+                bad.append([tag, "enumerate_fixed_length_paths(with_states=False)", sv, n])
             tot += sorted(want.elements())
             gw = collections.Counter((w, repr(e)) for w, e in A.enumerate_words(n, start_vertex=sv, with_states=True))
             if gw != collections.Counter(tot):
-                bad.append(["enumerate_words", sv, n])
-        if bad:
+                bad.append([tag, "enumerate_words", sv, n])
+            gp = collections.Counter(A.enumerate_words(n, start_vertex=sv))
+            if gp != collections.Counter(w for w, _ in tot):
+                bad.append([tag, "enumerate_words(with_states=False)", sv, n])
+        if len(bad) > n0:
             break
+
+
+def run_lang_oracle(inp):
+    """the query families are re-examined after every step of a history on ONE object: re-rooting (assignment to
+    start_vertices, edits of the list object) and graph edits between the queries"""
+    A, ref = make(inp)
+    bad = []
+    before = U.views(A)
+    check_lang(A, ref, inp["wmax"], inp["nmax"], bad, "initial")
     if U.views(A) != before and U.canon(U.views(A)) != U.canon(before):
         bad.append(["queries-changed-the-automaton"])
+    for n, st in enumerate(inp.get("steps", [])):
+        if bad:
+            break
+        k = st["k"]
+        if k == "assign":
+            A.start_vertices = list(st["v"])
+        elif k == "setitem":
+            if not A.start_vertices:
+                continue
+            A.start_vertices[0] = st["v"]
+        elif k == "insert":
+            A.start_vertices.insert(0, st["v"])
+        elif k == "append":
+            A.start_vertices.append(st["v"])
+        elif k == "op":
+            if not ref.valid(st["op"]):
+                break
+            A = U.apply_op(A, st["op"])
+            ref.apply(st["op"])
+        check_lang(A, ref, inp["wmax2"], inp["nmax"], bad, "after step %d (%s)" % (n, k))
+        pb = U.coherence_problems(U.views(A), ref)
+        if pb:
+            bad.append(["views-after-step", n, k] + pb)
     return {"bad": bad[:4]}
 
 
@@ -316,7 +352,26 @@ def judge_bad(what):
 def gen_lang_oracle(rng, n):
     for a in gen_automata(rng, n):
         a = dict(a)
-        a["wmax"], a["nmax"] = 4, 4
+        a["wmax"], a["wmax2"], a["nmax"] = 4, 3, 4
+        _, ref = U.build(a["init"])
+        for op in a["ops"]:
+            ref.apply(op)
+        vs, ls = U.universe(a["init"])
+        steps = []
+        for _ in range(rng.choice([0, 1, 2, 3, 4])):
+            pool = sorted(ref.V, key=U.key) or [0]
+            k = rng.choice(["assign", "assign", "setitem", "insert", "append", "op", "op"])
+            if k == "assign":
+                steps.append({"k": k, "v": [rng.choice(pool) for _ in range(rng.choice([1, 1, 1, 2]))]})
+            elif k == "op":
+                op, ok = U.rand_op(rng, ref, vs, ls, 0.0, fresh=False)
+                if op["k"] == "rename":
+                    continue
+                ref.apply(op)
+                steps.append({"k": "op", "op": op})
+            else:
+                steps.append({"k": k, "v": rng.choice(pool)})
+        a["steps"] = steps
         yield a
 
 
@@ -677,13 +732,15 @@ CLAUSES = [
            what="the 18 built-in automata: the same queries (words <= 2, enumeration n <= 3)"),
     Clause("ops_corr", "corr", gen_ops_corr, run_queries, judge_queries, lean=lean_queries,
            site="fsa.FSA.automaton_multiple/rename_generators/recurrent/remove_long_paths",
-           budget={"quick": 300, "thorough": 6000},
+           budget={"quick": 200, "thorough": 6000},
            what="automaton_multiple k=0..4 (views and enumeration), rename (permutation, fresh letters, incomplete map, non-injective map), "
                 "recurrent, remove_long_paths for every root x edge_ties, each as the three views vs the Lean model; original unchanged"),
     Clause("lang_oracle", "oracle", gen_lang_oracle, run_lang_oracle,
            judge_bad("accepts / follow_word / prefixes / enumerators agree with the reference language, each accepted word listed once"),
            site="fsa.FSA walks and enumerators", budget={"quick": 600, "thorough": 8000},
-           what="reference = set of triples; all words <= 4 over the labels + a foreign letter, all start vertices, n <= 4"),
+           what="reference = set of triples; all words <= 4 over the labels + a foreign letter, default start and explicit start vertices, n <= 4, "
+                "with and without states; then a history on the same object — start_vertices reassigned, its list edited in place (setitem, "
+                "insert, append; several start vertices), graph edits — with every query family re-checked after each step"),
     Clause("multiple_oracle", "oracle", gen_multiple_oracle, run_multiple_oracle,
            judge_bad("L(A_k) = accepted words of length divisible by k, each once; A_k coherent; A unchanged"),
            site="fsa.FSA.automaton_multiple / even_automaton", budget={"quick": 600, "thorough": 8000},
